@@ -7,7 +7,7 @@
    the rationals -- the rank of the matrices handed to ACA.  One state per case.               *)
 EXTENDS Integers, Sequences, FiniteSets, SequencesExt, TLC, Emit, Rat
 
-CONSTANTS Family,    \* "tucker" | "aca" | "aca3d" | "greedy"
+CONSTANTS Family,    \* "tucker" | "aca" | "aca3d" | "greedy" | "all"
           NCase,     \* number of pseudo-random cases
           Salt
 
@@ -83,12 +83,14 @@ GreedyCase(q) ==
       tolexp |-> 2 + (Hash(s, 20) % 11), rel |-> FALSE, rank |-> 1 + (Hash(s, 22) % 4),   \* rank = rank limit R
       generic |-> FALSE]
 
-Case(q) == CASE Family = "tucker" -> TuckerCase(q)
-             [] Family = "aca"    -> AcaCase(q)
-             [] Family = "aca3d"  -> Aca3dCase(q)
-             [] Family = "greedy" -> GreedyCase(q)
+Case(f, q) == CASE f = "tucker" -> TuckerCase(q)
+                [] f = "aca"    -> AcaCase(q)
+                [] f = "aca3d"  -> Aca3dCase(q)
+                [] f = "greedy" -> GreedyCase(q)
+Families == IF Family = "all" THEN {"tucker", "aca", "aca3d", "greedy"} ELSE {Family}
 
-Init == \E q \in 1..NCase : c = Case(q)
+\* the greedy algorithms are slow (and the ones that may not terminate): a quarter of the cases
+Init == \E f \in Families : \E q \in 1..(IF f = "greedy" THEN (NCase \div 4) + 5 ELSE NCase) : c = Case(f, q)
 Next == UNCHANGED c
 Spec == Init /\ [][Next]_c
 
